@@ -248,7 +248,12 @@ def parentX (c : Cfg) (ps : Ps) (s : PStep) (me : Caller) (os : Oneshot) :
     match lowestPidX ps s.listing with
     | (ps', none) => (ps', me, os, .indexError)
     | (ps', some lowest) =>
-      if me.pid == lowest then (ps', me, os, .ok none)
+      if me.pid == lowest then
+        if c.rootGuarded then
+          -- the repaired stop: `self._raise_if_pid_reused()` (world `wi`: the only look-up of this call)
+          let g := raiseIfPidReusedX c.goneRaises s.wi me
+          if g.2 then (ps', g.1, os, .nsp me.pid) else (ps', g.1, os, .ok none)
+        else (ps', me, os, .ok none)
       else (ps', parentCoreX c s me os)
   else (ps, parentCoreX c s me os)
 
